@@ -553,11 +553,15 @@ def m_vec_len(e, st, a, ctx): return as_vec(e, st, a[0]).len
 def m_vec_is_empty(e, st, a, ctx): return zeq(as_vec(e, st, a[0]).len, 0)
 
 
+@model(r'<std::vec::Vec<.*> as std::ops::DerefMut>::deref_mut', r'std::vec::Vec::<.*>::as_mut_slice', r'<std::string::String as std::ops::DerefMut>::deref_mut')
+def m_vec_deref_mut(e, st, a, ctx): return a[0]      # &mut [T] is represented by the pointer to the Vec place
+
+
 @model(r'std::vec::Vec::<.*>::clear')
 def m_vec_clear(e, st, a, ctx): e.store(st, a[0], V(0, [])); return UNIT
 
 
-@model(r'<std::vec::Vec<.*> as std::ops::Deref>::deref', r'std::vec::Vec::<.*>::as_slice', r'<std::vec::Vec<.*> as std::ops::DerefMut>::deref_mut',
+@model(r'<std::vec::Vec<.*> as std::ops::Deref>::deref', r'std::vec::Vec::<.*>::as_slice',
        r'std::slice::<impl \[.*\]>::to_vec', r'<\[.*\] as std::borrow::ToOwned>::to_owned', r'std::slice::<impl \[.*\]>::iter_placeholder')
 def m_vec_deref(e, st, a, ctx): return as_vec(e, st, a[0])
 
@@ -669,17 +673,45 @@ def m_slice_contains(e, st, a, ctx):
     return simp(zor(*cs))
 
 
+def str_lt(a, b):
+    """lexicographic a < b (by scalar value = UTF-8 byte order)"""
+    n = max(len(a.ch), len(b.ch))
+    r = False      # built from the last position backwards
+    for i in range(n - 1, -1, -1):
+        ina = simp(i < a.len) if i < len(a.ch) else False
+        inb = simp(i < b.len) if i < len(b.ch) else False
+        ca = a.ch[i] if i < len(a.ch) else 0; cb = b.ch[i] if i < len(b.ch) else 0
+        # at position i: a ended and b not -> a<b ; both present: compare, equal -> continue
+        r = zite(znot(ina), inb, zite(znot(inb), False, zite(ca < cb, True, zite(ca > cb, False, r))))
+    return simp(r)
+
+
 @model(r'std::slice::<impl \[std::string::String\]>::sort', r'std::slice::<impl \[.*\]>::sort')
 def m_sort(e, st, a, ctx):
     v = as_vec(e, st, a[0])
-    if is_sym(v.len): raise Abort('sort of symbolic-length vector')
-    items = v.it[:v.len]
+    items = v.it
     keys = [str_concrete(x) if isinstance(x, S) else (x if isinstance(x, int) else None) for x in items]
-    if any(k is None for k in keys):
-        if v.len <= 1: return UNIT
-        raise Abort('sort of symbolic strings')
-    order = sorted(range(len(items)), key=lambda i: keys[i])
-    e.store(st, a[0], V(v.len, [items[i] for i in order])); return UNIT
+    if not is_sym(v.len) and not any(k is None for k in keys[:v.len]):
+        order = sorted(range(v.len), key=lambda i: keys[i])
+        e.store(st, a[0], V(v.len, [items[i] for i in order])); return UNIT
+    if not all(isinstance(x, S) for x in items): raise Abort('sort of symbolic non-string items')
+    n = len(items)
+    # stable rank of every live item; output cell r holds the item of rank r
+    ranks = []
+    for i in range(n):
+        r = 0
+        for j in range(n):
+            if i == j: continue
+            before = zor(str_lt(items[j], items[i]), zand(str_eq(items[j], items[i]), j < i))
+            r = r + zite(zand(j < v.len, before), 1, 0)
+        ranks.append(simp(r))
+    out = []
+    for r in range(n):
+        cell = items[0] if n else None
+        for i in range(n - 1, -1, -1):
+            cell = merge(zand(i < v.len, zeq(ranks[i], r)), items[i], cell)
+        out.append(cell)
+    e.store(st, a[0], V(v.len, out)); return UNIT
 
 
 @model(r'std::boxed::Box::<\[.*; \d+\]>::new_uninit')
@@ -1370,3 +1402,247 @@ def m_split_next(e, st, a, ctx):
     c = simp(idx < v.len)
     e.store(st, a[0], T([v, zite(c, idx + 1, idx)], 'iter::Split'))
     return opt(c, sel(v.it, idx, S(0, [])))
+
+
+def deep_val(e, st, v, depth=0):
+    """replace pointers by their pointees, recursively (for structural comparison)"""
+    if depth > 6: return v
+    if isinstance(v, (P, PV)): return deep_val(e, st, e.deref(st, v), depth + 1)
+    if isinstance(v, T): return T([deep_val(e, st, x, depth + 1) for x in v.f], v.ty)
+    if isinstance(v, E): return E(v.ty, v.d, {k: [deep_val(e, st, x, depth + 1) for x in p] for k, p in v.p.items()})
+    if isinstance(v, V): return V(v.len, [deep_val(e, st, x, depth + 1) for x in v.it])
+    if isinstance(v, U): return U([(c, deep_val(e, st, x, depth + 1)) for c, x in v.alts])
+    return v
+
+
+@model(r'<.* as std::cmp::PartialEq(<.*>)?>::(eq|ne)')
+def m_generic_eq(e, st, a, ctx):
+    r = simp(deep_eq(deep_val(e, st, a[0]), deep_val(e, st, a[1])))
+    return znot(r) if ctx[0].endswith('::ne') else r
+
+
+# ------------------------------------------------------------------ iterator adapters (eager, over materialised items)
+def materialise(e, st, it):
+    """V of the remaining items of an iterator value"""
+    if isinstance(it, (P, PV)): it = e.deref(st, it)
+    if not isinstance(it, T): raise Abort('materialise: not an iterator %r' % (it,))
+    ty = it.ty
+    if ty == 'iter::Chars':
+        sv, idx = it.f
+        if idx != 0: raise Abort('materialise advanced Chars')
+        return V(sv.len, sv.ch)
+    if ty in ('iter::Lines', 'iter::Split', 'iter::VecInto'):
+        v, idx = it.f
+        if idx != 0:
+            if is_sym(idx): raise Abort('materialise advanced iterator')
+            return V(v.len - idx, v.it[idx:])
+        return v
+    if ty == 'iter::Slice':
+        v, idx, base = it.f
+        if idx != 0: raise Abort('materialise advanced slice iterator')
+        return V(v.len, [PV(x) for x in v.it])
+    if ty in ('std::ops::Range', 'core::ops::Range'):
+        lo, hi = it.f
+        if is_sym(lo) or is_sym(hi): raise Abort('materialise symbolic range')
+        return V(max(0, hi - lo), list(range(lo, hi)))
+    if ty == 'iter::Map':
+        mv, idx, kind, byref = it.f
+        raise Abort('materialise of a map iterator')
+    raise Abort('materialise: unknown iterator ' + str(ty))
+
+
+def mat_iter(v): return T([v, 0], 'iter::VecInto')
+
+
+def map_cells(e, st, v, clo, wrap=lambda x: [x]):
+    out = []
+    for i, x in enumerate(v.it):
+        c = simp(i < v.len)
+        if c is False: out.append(None); continue
+        out.append(cond_apply(e, st, c, clo, wrap(x), POISON))
+    return out
+
+
+ITER = r'<(std|core)::(iter|str|slice|vec|ops|collections::\w+)::[\w:]+(<.*>)? as std::iter::Iterator>'
+
+
+@model(ITER + r'::map::<.*>')
+def m_iter_map(e, st, a, ctx):
+    v = materialise(e, st, a[0])
+    return mat_iter(V(v.len, map_cells(e, st, v, a[1])))
+
+
+@model(ITER + r'::enumerate')
+def m_iter_enumerate(e, st, a, ctx):
+    v = materialise(e, st, a[0])
+    return mat_iter(V(v.len, [T([i, x]) for i, x in enumerate(v.it)]))
+
+
+@model(r'core::str::<impl str>::char_indices')
+def m_char_indices(e, st, a, ctx):
+    sv = as_str(e, st, a[0]); off = byte_offsets(sv)
+    return mat_iter(V(sv.len, [T([off[i], c]) for i, c in enumerate(sv.ch)]))
+
+
+def compact(v, keep):
+    """items of v whose keep flag holds, in order (symbolic compaction)"""
+    n = len(v.it); pos = []; cnt = 0
+    for i in range(n):
+        k = simp(zand(i < v.len, keep[i])); pos.append((k, cnt)); cnt = cnt + zite(k, 1, 0)
+    out = []
+    for r in range(n):
+        cell = None
+        for i in range(n - 1, -1, -1):
+            k, p = pos[i]
+            c = simp(zand(k, zeq(p, r)))
+            if c is False: continue
+            cell = v.it[i] if cell is None else merge(c, v.it[i], cell)
+        out.append(cell)
+    return V(simp(cnt), out)
+
+
+@model(ITER + r'::filter::<.*>')
+def m_iter_filter(e, st, a, ctx):
+    v = materialise(e, st, a[0])
+    keep = map_cells(e, st, v, a[1], wrap=lambda x: [PV(x)])
+    return mat_iter(compact(v, [k if k is not None else False for k in keep]))
+
+
+@model(ITER + r'::rev')
+def m_iter_rev(e, st, a, ctx):
+    v = materialise(e, st, a[0])
+    if not is_sym(v.len): return mat_iter(V(v.len, list(reversed(v.it[:v.len]))))
+    n = len(v.it)
+    return mat_iter(V(v.len, [sel(v.it, v.len - 1 - k, POISON) for k in range(n)]))
+
+
+@model(ITER + r'::skip')
+def m_iter_skip(e, st, a, ctx):
+    v = materialise(e, st, a[0]); n = a[1]
+    if is_sym(n): raise Abort('skip with symbolic count')
+    newlen = zite(simp(v.len >= n), v.len - n, 0)
+    return mat_iter(V(simp(newlen), v.it[n:]))
+
+
+@model(ITER + r'::take')
+def m_iter_take(e, st, a, ctx):
+    v = materialise(e, st, a[0]); n = a[1]
+    return mat_iter(V(simp(zite(simp(v.len <= n), v.len, n)), v.it))
+
+
+@model(ITER + r'::collect::<std::vec::Vec<.*>>')
+def m_iter_collect_vec(e, st, a, ctx):
+    return materialise(e, st, a[0])
+
+
+@model(ITER + r'::collect::<std::string::String>')
+def m_iter_collect_string(e, st, a, ctx):
+    v = materialise(e, st, a[0])
+    if all(x is None or is_int(x) for x in v.it): return S(v.len, [0 if x is None else x for x in v.it])
+    # strings: concatenate
+    out = S(0, [])
+    for i, x in enumerate(v.it):
+        c = simp(i < v.len)
+        if c is False: break
+        out = merge(c, str_concat(out, as_str(e, st, x)), out)
+    return out
+
+
+@model(ITER + r'::count')
+def m_iter_count(e, st, a, ctx): return materialise(e, st, a[0]).len
+
+
+@model(ITER + r'::last')
+def m_iter_last(e, st, a, ctx):
+    v = materialise(e, st, a[0])
+    return opt(simp(v.len > 0), sel(v.it, v.len - 1, POISON))
+
+
+@model(ITER + r'::(any|all)::<.*>')
+def m_iter_any_all(e, st, a, ctx):
+    v = materialise(e, st, a[0])
+    it_arg = a[0]
+    flags = map_cells(e, st, v, a[1])
+    is_any = '::any::<' in ctx[0]
+    cs = [zand(simp(i < v.len), f) if is_any else zimp(simp(i < v.len), f) for i, f in enumerate(flags) if f is not None]
+    return simp(zor(*cs)) if is_any else simp(zand(*cs))
+
+
+@model(ITER + r'::position::<.*>')
+def m_iter_position(e, st, a, ctx):
+    v = materialise(e, st, a[0])
+    flags = map_cells(e, st, v, a[1])
+    found = False; idx = 0
+    for i in range(len(flags) - 1, -1, -1):
+        if flags[i] is None: continue
+        c = simp(zand(i < v.len, flags[i])); idx = zite(c, i, idx); found = zor(found, c)
+    return opt(simp(found), idx)
+
+
+@model(r'<std::iter::\w+<.*> as std::iter::Iterator>::next', r'<std::str::CharIndices<\'_> as std::iter::Iterator>::next')
+def m_mat_next(e, st, a, ctx):
+    return m_vec_iter_next(e, st, a, ctx)
+
+
+@model(r'<std::str::CharIndices<\'_> as std::iter::IntoIterator>::into_iter', r'<std::str::Split<\'_, .*> as std::iter::IntoIterator>::into_iter')
+def m_iter_identity2(e, st, a, ctx): return a[0]
+
+
+MODELS[:] = [(p, f) for (p, f) in MODELS if f.__name__ != 'm_str_split']
+
+
+@model(r'core::str::<impl str>::split::<.*>')
+def m_str_split2(e, st, a, ctx):
+    sv = as_str(e, st, a[0]); pat = a[1]
+    if isinstance(pat, T) and pat.ty and pat.ty.startswith('{closure@'):
+        flags = []
+        for i, c in enumerate(sv.ch):
+            inside = simp(i < sv.len)
+            flags.append(False if inside is False else simp(zand(inside, cond_apply(e, st, inside, pat, [c], False))))
+        return T([V(*split_on_flags(sv, flags)), 0], 'iter::Split')
+    p = pat_str(e, st, pat)
+    pc = str_concrete(p)
+    if pc is None or len(pc) != 1: raise Abort('split with symbolic / multi-char pattern')
+    code = ord(pc)
+    sc = str_concrete(sv)
+    if sc is not None:
+        parts = sc.split(pc); return T([V(len(parts), [mk_str(x) for x in parts]), 0], 'iter::Split')
+    return T([V(*split_on_flags(sv, [zand(i < sv.len, zeq(c, code)) for i, c in enumerate(sv.ch)])), 0], 'iter::Split')
+
+
+def split_on_flags(sv, sep):
+    """pieces of sv separated at the positions flagged in sep (str::split semantics: k separators give k+1 pieces)"""
+    n = len(sv.ch)
+    pi = [0]
+    for i in range(n): pi.append(pi[-1] + zite(sep[i], 1, 0))      # pi[i] = piece index of position i
+    count = (sel(pi, sv.len, 0) if is_sym(sv.len) else pi[sv.len]) + 1
+    pieces = []
+    for k in range(n + 1):
+        start = sv.len
+        for i in range(n, -1, -1):
+            if i == 0: c = zeq(k, 0)
+            else: c = zand(i <= sv.len, sep[i - 1], zeq(pi[i], k))      # piece k (k>0) starts right after the k-th separator
+            start = zite(c, i, start) if i > 0 else zite(zeq(k, 0), 0, start)
+        end = sv.len
+        for i in range(n - 1, -1, -1): end = zite(zand(sep[i], zeq(pi[i], k)), i, end)
+        pieces.append(str_sub(sv, simp(start), simp(end)))
+    return simp(count), pieces
+
+
+@model(r'core::str::<impl str>::split_terminator::<.*>')
+def m_split_terminator(e, st, a, ctx):
+    it = m_str_split2(e, st, a, ctx)
+    v, idx = it.f
+    sv = as_str(e, st, a[0])
+    # drop the trailing empty piece (text empty or ending with a separator)
+    last = sel(v.it, v.len - 1, S(0, []))
+    newlen = simp(zite(zand(v.len >= 1, zeq(last.len, 0)), v.len - 1, v.len))
+    return T([V(newlen, v.it), 0], 'iter::Split')
+
+
+@model(r'<std::str::SplitTerminator<\'_, .*> as std::iter::Iterator>::next')
+def m_split_term_next(e, st, a, ctx): return m_split_next(e, st, a, ctx)
+
+
+@model(r'<std::str::SplitTerminator<\'_, .*> as std::iter::IntoIterator>::into_iter')
+def m_split_term_into(e, st, a, ctx): return a[0]
